@@ -92,8 +92,8 @@ pub fn run(args: &Args) -> i32 {
     .floor("c06:boundary_commits", 20)
     .floor("c06:boundary_rejects", 20);
     let mut report = Report::new(args, spec);
-    let txs_per_shard = scaled(args, args.tier.pick(300, 6000));
-    let bisections_per_shard = scaled(args, args.tier.pick(6, 120));
+    let txs_per_shard = scaled(args, args.tier.pick(2500, 40_000));
+    let bisections_per_shard = scaled(args, args.tier.pick(40, 800));
     let budget = Duration::from_secs(budget_secs(args.tier, 75, 900));
     report.run_shards(6, args.threads, budget, |i, rng, shard| {
         let mut w = World::new(shard, rng, 4);
@@ -117,6 +117,15 @@ pub fn run(args: &Args) -> i32 {
             if let Some(rc) = &r.receipt {
                 let cls = rv_ledger::outcome_class(rc);
                 let kind = cls.split(':').next().unwrap_or("").to_string();
+                // the proportion the receipt says it applied must be the one the harness specified
+                let expected_proportion = match tip {
+                    TipSpecifier::None => Decimal::ZERO,
+                    TipSpecifier::Percentage(p) => Decimal::from(p).checked_div(Decimal::from(100u32)).unwrap(),
+                    TipSpecifier::BasisPoints(bp) => Decimal::from(bp).checked_div(Decimal::from(10_000u32)).unwrap(),
+                };
+                if rc.transaction_costing_parameters.tip_proportion != expected_proportion {
+                    shard.violation("receipt-tip-proportion-differs-from-tip-specifier", json!({"tip": format!("{tip:?}"), "receipt_tip_proportion": rc.transaction_costing_parameters.tip_proportion.to_string(), "expected": expected_proportion.to_string()}));
+                }
                 if non_genesis && kind.starts_with("commit") {
                     shard.count("c06:non_genesis_costing_commits");
                 }
